@@ -93,3 +93,26 @@ func zzH_C03_smtp() {
 	}
 	zzAssert(mails == n, "every delivered message is reported exactly once")
 }
+
+// C01+C09/bytes-smtp: any N bytes (optionally after a HELO line) followed by the client
+// going away: the handler returns, closes the connection and leaves no goroutine.
+func zzH_C09_bytes_smtp() {
+	n := zzLen(0, zzParam("N", 3))
+	data := zzBytes(n)
+	for i := 0; i < n; i++ {
+		zzAssume(data[i] < 0x80) // ASCII: case mapping / rune decoding of symbolic non-ASCII bytes is beyond the solver budget
+	}
+	if zzBool() {
+		data = append([]byte("HELO c\r\n"), data...)
+	}
+	s := SMTP().(*Service)
+	s.SetChannel(&zzMRec{})
+	base := zzLive()
+	conn := &zzMConn{data: data, remote: &net.TCPAddr{IP: net.IPv4(10, 9, 9, 9), Port: 40000}}
+	zzUnwindIn("smtp", 4*n+24, true)
+	zzDidPanic(func() { s.Handle(context.Background(), conn) })
+	zzUnwindIn("", 0, false)
+	zzQuiesce()
+	zzAssert(conn.closed, "the connection is closed when the handler returns")
+	zzAssert(zzLive() == base, "no goroutine created on the connection's behalf outlives the handler")
+}
